@@ -9,8 +9,8 @@ HDR = '#include "celer.h"\n'
 
 SA_TYPES = """
 /* T = Secondary (celeritas/phys/Secondary.hh): { ParticleId particle_id; MevEnergy energy; Real3 direction; }  (bound in bindings.cc) */
-typedef struct { unsigned particle_id; real_type energy; real_type direction[3]; } value_type;
-#define INVALID_ID 0xffffffffu
+typedef struct { size_type particle_id; real_type energy; real_type direction[3]; } value_type;   /* ParticleId = OpaqueId<Particle_, size_type> */
+#define INVALID_ID ((size_type)-1)
 /* `new (&x) value_type;` = default-initialisation: ParticleId() -> invalid, MevEnergy value_{} -> 0, Real3 left indeterminate */
 static void VT_default_init(value_type* x) { x->particle_id = INVALID_ID; x->energy = 0; }
 typedef struct { value_type* ptr; size_type size; } StorageItems;   /* Collection<T, reference, native> */
@@ -70,11 +70,11 @@ result_type SA_alloc(StackAllocator* self, size_type count)
 __CPROVER_requires(""" + VALID_SA + """)
 __CPROVER_requires(count > 0)   /* the function's own CELER_EXPECT */
 /* sequential invariant of the allocator, and stated range: size + count does not wrap */
-__CPROVER_requires(self->data_->size.ptr[0] <= self->data_->storage.size && (ull_int)self->data_->size.ptr[0] + count <= 0xffffffffull)
+__CPROVER_requires(self->data_->size.ptr[0] <= self->data_->storage.size && (unsigned __int128)self->data_->size.ptr[0] + count <= (unsigned __int128)(size_type)-1)
 __CPROVER_requires(g_k < self->data_->storage.size && g_old.particle_id == self->data_->storage.ptr[g_k].particle_id && g_old.energy == self->data_->storage.ptr[g_k].energy && g_old.direction[0] == self->data_->storage.ptr[g_k].direction[0])
 __CPROVER_assigns(self->data_->size.ptr[0], __CPROVER_object_whole(self->data_->storage.ptr))
 /* success iff it fits */
-__CPROVER_ensures((__CPROVER_return_value != 0) == ((ull_int)__CPROVER_old(self->data_->size.ptr[0]) + count <= self->data_->storage.size))
+__CPROVER_ensures((__CPROVER_return_value != 0) == ((unsigned __int128)__CPROVER_old(self->data_->size.ptr[0]) + count <= self->data_->storage.size))
 /* success: the block [old size, old size + count) is handed out, size advanced by exactly count */
 __CPROVER_ensures(__CPROVER_return_value != 0 ==> (__CPROVER_return_value == &self->data_->storage.ptr[__CPROVER_old(self->data_->size.ptr[0])] && self->data_->size.ptr[0] == __CPROVER_old(self->data_->size.ptr[0]) + count))
 /*          every element of the block is default-initialised (empty secondary), every other element untouched */
@@ -127,7 +127,7 @@ void h_sa(void)
 UNITS = [
     Unit("c16_alloc", build_alloc, "h_alloc", enforce="SA_alloc", loop_contracts=True, timeout=600, object_bits=10,
          must_have=[r"SA_alloc.postcondition", r"loop_invariant_step", r"celer_assert", r"celer_expect"], checks=["--bounds-check", "--pointer-check"],
-         assumptions=["atomic_add treated as a sequential read-modify-write (single thread)", "size + count does not wrap 32 bits (stated precondition)",
+         assumptions=["atomic_add treated as a sequential read-modify-write (single thread)", "size + count does not wrap size_type (64 bits) (stated precondition)",
                       "T = Secondary; placement new = default-initialisation (particle_id invalid, energy 0, direction indeterminate)",
                       "witness element compared on particle_id, energy, direction[0]"],
          note="StackAllocator::operator(): success iff it fits; block [old,old+count) default-initialised and nothing else touched; failure returns null with size restored and storage untouched (unbounded count, loop contract)"),
